@@ -146,7 +146,7 @@ PROPS["C12"] = dict(
     level_text="Every subkey length 16..=64 and every rejected length 0..=15, 65..=80 is exercised for each cell of {key class} x {context class} x "
                "{special and random ids}; each subkey is compared with libsodium and with an independent BLAKE2b; lengths are enumerated completely, keys/ids sampled.",
     level_note="Trusts libsodium and hashlib's BLAKE2b as two independent implementations of the keyed, salted, personalised BLAKE2b that crypto_kdf is defined as.",
-    runs=lambda tier: [dict(build="st", monitor="c12")],
+    runs=lambda tier: [dict(build="st", monitor="c12"), dict(build="st-rel", monitor="c12")],
     offline=offline.check_c12,
     models=[],
     floors=_c12_floors,
@@ -697,7 +697,7 @@ def _asan(monitor, corpus_tier="quick", nshards=16):
         env["CARGO_TARGET_DIR"] = os.path.join(ctx["cache"], "target-asan")
         env["RUSTFLAGS"] = "-Zsanitizer=address -Cforce-frame-pointers=yes"
         harness = os.path.join(ctx["root"], "harness")
-        b = subprocess.run(["cargo", "+nightly", "build", "--offline", "--target", "x86_64-unknown-linux-gnu", "--profile", "verif", "--bin", "vmon", "--features", "nightly"],
+        b = subprocess.run(["cargo", "+nightly", "build", "--offline", "--target", "x86_64-unknown-linux-gnu", "--profile", "verif", "--bin", "vmon", "--features", "nightly,asan"],
                            cwd=harness, env=env, stdout=subprocess.PIPE, stderr=subprocess.STDOUT, text=True)
         if b.returncode != 0:
             m.problems.append("ASan build failed: " + b.stdout[-600:].replace("\n", " | "))
@@ -859,9 +859,10 @@ def _c18_run(ctx):
     from concurrent.futures import ThreadPoolExecutor
     m = ctx["m"]
     tier = ctx["tier"]
-    cfgs = [("default(stable,u64_backend)", "st-default"), ("nightly", "ni-probe"), ("nightly+simd_backend", "ni-simd-probe")]
+    cfgs = [("default(stable,u64_backend)", "st-default"), ("default(stable), release profile without debug assertions / overflow checks", "st-default-rel"),
+            ("nightly", "ni-probe"), ("nightly+simd_backend", "ni-simd-probe")]
     bins = {}
-    with ThreadPoolExecutor(max_workers=3) as ex:
+    with ThreadPoolExecutor(max_workers=4) as ex:
         futs = {name: ex.submit(ctx["build"], b) for name, b in cfgs}
         for (name, b) in cfgs:
             binary, bt = futs[name].result()
@@ -880,7 +881,7 @@ def _c18_run(ctx):
     jobs = [(name, i) for name, _ in cfgs for i in range(nsh)]
     with ThreadPoolExecutor(max_workers=16) as ex:
         results = list(ex.map(one, jobs))
-    meta = dict(seed=ctx["seed"], tier=tier, monitor="vprobe", build="st-default+ni-probe+ni-simd-probe", shard=-1, nshards=nsh)
+    meta = dict(seed=ctx["seed"], tier=tier, monitor="vprobe", build="st-default+st-default-rel+ni-probe+ni-simd-probe", shard=-1, nshards=nsh)
     for name, i, rc, out, err in results:
         t = transcripts.setdefault(name, {})
         saw_summary = False
@@ -968,6 +969,10 @@ def _c20_floors(m, tier):
         out.append("no misuse program was rejected by the compiler (nothing observed)")
     if m.cov.get("control_outcome", {}).get("compiles+runs", 0) < 60:
         out.append("fewer than 60 control programs compiled and ran")
+    if len(m.cov.get("route_offered_and_runs", {})) < 60:
+        out.append("fewer than 60 (container, state, access route) cells were offered by the API and ran")
+    if nm < 180:
+        out.append("fewer than 180 misuse programs (table + access routes): %d" % nm)
     return out
 
 
@@ -975,7 +980,9 @@ PROPS["C20"] = dict(
     level="exploration",
     technique="runtime monitoring of the compiler as an observed process: misuse/control programs generated from the type-state table are compiled by the real rustc against the rlib of the crate just built; verdict and error class are recorded per cell; every program that compiles is linked and executed under a signal monitor",
     level_text="One misuse and/or one control program per cell of {ReadWrite, ReadOnly, NoAccess} x {Locked, Unlocked} x {read view, mutable view, array view, mutable array view, index, index-assign, resize, clone, "
-               "lock, unlock, read-only, read-write, no-access, use-after-transition} for HeapBytes and HeapByteArray<32>, plus {Push, Pull} x {push, pull}: about 230 programs. The five classes the property names "
+               "lock, unlock, read-only, read-write, no-access, use-after-transition} for HeapBytes and HeapByteArray<32>, plus 21 further access routes to the bytes per (container, state) (Deref/DerefMut, AsRef/AsMut to slice and array, slice methods reached by auto-deref, range indexing, "
+               "generic Bytes/MutBytes/ByteArray/MutByteArray bounds, PartialEq, Debug; a route the API does not offer where it would be permitted is recorded, not demanded), resize shrink / to-zero / grow-then-shrink controls, "
+               "plus {Push, Pull} x {push, pull}: about 480 programs. The five classes the property names "
                "must be rejected by the compiler with an error located on the misuse statement; other cells the model marks forbidden are violated only if the program compiles and faults at run time; every "
                "control (a program differing from the misuse in exactly one statement) must compile, run and exit 0. The claim covers the generated table, not all programs.",
     level_note="This is the one check where the observed execution is the compiler's: a property of the type system cannot be refuted by running the crate. Error codes are recorded, not prescribed, so a reworded diagnostic cannot alarm.",
